@@ -126,7 +126,18 @@ func c06(c *Ctx) {
 			switch {
 			case isKeyBytes(arg):
 				perFn["key"]++
-				key := fmt.Sprintf("%s decodes database key/distance #%d", core.FuncName(fn), perFn["key"])
+				// keyed by the role of the function in the store (helper or written out in Put, it is
+				// the same decode), so that moving the code does not change the identity of a finding
+				role := core.FuncName(fn)
+				switch fn {
+				case m.inRadius:
+					role = "store admission test"
+				case m.prune:
+					role = "store prune"
+				case m.ctor:
+					role = "store open"
+				}
+				key := fmt.Sprintf("%s decodes database key/distance #%d", role, perFn["key"])
 				r.Check(u256BE[meth], "R1.byte-order", key, p.Pos(ci.Pos()),
 					"big-endian decoding of a bytewise-ordered key", "a database key / XOR distance (ordered bytewise = big-endian) is decoded with the little-endian "+meth+": the radius and the admission test read the byte-reversed number")
 			case isWireRadius(arg):
@@ -182,14 +193,22 @@ func c06(c *Ctx) {
 	// the store's own test: radius.Gt(dis)
 	{
 		okGt := false
-		for _, ret := range core.Returns(m.inRadius) {
-			if cc, ok := ret.Results[0].(*ssa.Call); ok && core.CalleeID(cc) == u256Pfx+"Gt" {
-				if core.Derives(cc.Call.Args[0], func(v ssa.Value) bool {
-					c2, ok := v.(*ssa.Call)
-					return ok && core.CalleeID(c2) == atomicValLoad && m.isField(c2.Call.Args[0], m.radFld)
-				}, core.DeriveOpts{}) {
-					okGt = true
+		if m.inlineTest {
+			// the comparison written out in Put: some branch tests radius.Gt(distance) / distance.Lt(radius)
+			for _, b := range m.put.Blocks {
+				for i := range b.Succs {
+					if m.radiusGate(true)(core.EdgeFacts(b, i)) {
+						okGt = true
+					}
 				}
+			}
+		}
+		for _, ret := range core.Returns(m.inRadius) {
+			if m.inlineTest {
+				break
+			}
+			if cc, ok := ret.Results[0].(*ssa.Call); ok && m.radiusCmpCall(cc) {
+				okGt = true
 			}
 		}
 		r.Check(okGt, "R2.in-range-rule", core.FuncName(m.inRadius)+" strictness", p.Pos(m.inRadius.Pos()), "admits iff radius > distance", "the store's admission test is not radius > distance")
@@ -273,17 +292,7 @@ func c06(c *Ctx) {
 			continue
 		}
 		nref++
-		refused := core.AnyFact(func(f core.Fact) bool {
-			if f.Op != token.ILLEGAL || f.Truth {
-				return false
-			}
-			ex, ok := f.V.(*ssa.Extract)
-			if !ok {
-				return false
-			}
-			cc, ok := ex.Tuple.(*ssa.Call)
-			return ok && core.StaticCalleeFn(cc) == m.inRadius
-		})
+		refused := m.radiusGate(false)
 		w := core.InstrGuarded(ret, refused, nil)
 		r.Check(w == nil, "R4.refusal", core.FuncName(m.put)+" insufficient-radius", p.Pos(core.InstrPos(ret)), "returned only on the false edge of the radius test", "ErrInsufficientRadius can be returned although the radius test succeeded: "+p.PathString(w))
 	}
